@@ -419,6 +419,25 @@ def _evaluate(m, param_values: dict, data: dict, n_events: int):
     return out, kin_vals, expr, args
 
 
+def _violates_assumptions(sym, value) -> bool:
+    """Does a numeric value (scalar or array) contradict the assumptions of the symbol it is given to?"""
+    import numpy as np
+
+    v = np.atleast_1d(np.asarray(value, dtype=complex))
+    if not np.all(np.isfinite(v)):
+        return True
+    if sym.is_extended_real or sym.is_real:
+        if np.any(np.abs(v.imag) > 1e-13 * np.maximum(1.0, np.abs(v.real))):
+            return True
+        if sym.is_positive and np.any(v.real <= 0):
+            return True
+        if sym.is_nonnegative and np.any(v.real < 0):
+            return True
+        if sym.is_negative and np.any(v.real >= 0):
+            return True
+    return False
+
+
 def numeric_clause(m, r, mp, rng, n_events: int = 4) -> dict:
     import numpy as np
     import sympy as sp
@@ -451,6 +470,15 @@ def numeric_clause(m, r, mp, rng, n_events: int = 4) -> dict:
         raise
     except Exception as e:  # noqa: BLE001  numpy/lambdify cannot evaluate this expression (e.g. arctan2 of complex)
         raise _SkipNumeric(f"not evaluable with numpy: {type(e).__name__}") from e
+    # A MERGING map lets SymPy combine terms that became equal (Abs(a*k)*Abs(b*k) -> (z*k)**2 for real z, k); such
+    # rewrites are identities only on values that satisfy the symbols' assumptions. A default value or a computed
+    # kinematic variable that contradicts the assumptions of its symbol (a complex default for a `real` symbol, an
+    # imaginary invariant mass) therefore legitimately changes the merged intensity: outside the clause. Injective
+    # maps give isomorphic trees and need no such precondition.
+    if len({mp[s] for s in mp}) < len(mp):
+        for sym_, val in [*par_m.items(), *par_r.items(), *kin_m.items(), *kin_r.items()]:
+            if _violates_assumptions(sym_, val):
+                raise _SkipNumeric(f"merge, and the value of {sym_} contradicts its assumptions")
     # kinematic variables first
     for k, v in kin_m.items():
         w = kin_r.get(mp[k])
